@@ -497,16 +497,25 @@ def detect_fixes(impl_corpus):
 def evaluate(rep, cases, pr_broken=False):
     stats = dict(evaluations=0, violations=0, nontrivial=set())
     pending = []
-    impl = core.run_impl_sharded("c04_impl.py", cases)
-    primary = detect_fixes(impl[:len(CORPUS)]) if cases[:len(CORPUS)] == CORPUS else PINNED
+    # the corpus cases run first: they tell which model variant to evaluate, so that the
+    # implementation and the model can then be evaluated concurrently
+    ncorp = len(CORPUS) if cases[:len(CORPUS)] == CORPUS else 0
+    impl_corpus = core.run_impl_lines("c04_impl.py", cases[:ncorp]) if ncorp else []
+    primary = detect_fixes(impl_corpus) if ncorp else PINNED
     stats["model_variant"] = dict(zip(("fx_bound", "fx_mapped", "fx_add"), primary))
-    model = None
-    try:
-        model = run_model(cases, primary)
-    except core.CheckError as e:
-        if not pr_broken:
-            raise
-        rep.notes.append(f"model not runnable: {str(e)[:300]}")
+    import concurrent.futures as cf
+
+    with cf.ThreadPoolExecutor(max_workers=2) as ex:
+        f_impl = ex.submit(core.run_impl_sharded, "c04_impl.py", cases[ncorp:])
+        f_model = ex.submit(run_model, cases, primary)
+        impl = impl_corpus + f_impl.result()
+        model = None
+        try:
+            model = f_model.result()
+        except core.CheckError as e:
+            if not pr_broken:
+                raise
+            rep.notes.append(f"model not runnable: {str(e)[:300]}")
     if model is None:
         model = [[None, [None] * len(c["queries"]), None] for c in cases]
     for c, ir, mr in zip(cases, impl, model):
